@@ -3,6 +3,7 @@
 import json, os
 HERE = os.path.dirname(os.path.abspath(__file__))
 
+T = "bounded-exhaustive exploration of the implementation against a reference model"
 CHECKS = {
  "C01": dict(cat="model_checking", design="4/C01",
    text="Every selection pck[field][level][box] over the complete selector alphabets (names, ints, NumPy ints, all slices, "
@@ -56,6 +57,38 @@ CHECKS = {
         "equal the payload of a FAB in its file whose header names that range.",
    note="Only accepted mutants carry a demand; candidates are found by an independent byte search of the binary file.",
    tech="exhaustive fault enumeration (every operator x site, singles and pairs) with a differential validator/reader oracle"),
+ "C06": dict(cat="model_checking", design="4/C06",
+   text="combine(A, B) is executed for pairs of generated 3D plotfiles on a common mesh with independently chosen layouts (ordered set "
+        "partitions x file numberings of each level, each side), every selection form (None / string / list, unknown names, reordered, "
+        "overlapping field sets), and for mismatched pairs (level count, box added / removed / moved / grown, permuted, other dx, other "
+        "origin, far-index box shifted by one cell). Output parsed independently and compared with RefPlot.combine(); mismatches must "
+        "raise with no write-class file-system event (audit hook).",
+   note="Controlled in-process pool, identity schedule (schedules in C12); selections leaving the second side empty are refused by the tool and outside the statement.",
+   tech=T),
+ "C08": dict(cat="model_checking", design="4/C08",
+   text="Mandoline.slice(fformat='return') on generated 2D plotfiles (rectangular domains, non-square boxes, 1..3 levels, layouts, "
+        "two origins x three cell shapes) x six field-list forms x every limit x serial / parallel under every order of the per-box "
+        "pool.map tasks, with np.empty returning two different poison patterns; every pixel, the level map and the coordinates are "
+        "compared bit-wise with the reference covering grid.",
+   note="np.empty of the mandoline module is replaced by a poison-filling proxy; <= 4 boxes per level for the schedule exploration.",
+   tech="bounded-exhaustive exploration + schedule exploration of the implementation against a reference model"),
+ "C09": dict(cat="model_checking", design="4/C09",
+   text="volume_integral is executed on 3D plotfiles with a fine box at EVERY even-aligned position and size over level-0 tilings "
+        "(2/4-cell and 4/8-cell families), pairs of fine boxes, 3- and 4-level chains and the 16/24-cell template, positive and "
+        "sign-alternating payloads, with and without volFrac, the level limit given through the reader, the argument and the CLI flag; "
+        "compared with the reference sum over uncovered cells within 64 eps sum|v dV|.",
+   note="Even blocking factor (2 cells) assumed, as the statement does.", tech=T),
+ "C10": dict(cat="model_checking", design="4/C10",
+   text="whip.cli.main() is driven through sys.argv for every field x dtype x --limit_level x explicit/default output on generated 3D "
+        "plotfiles; each level's imap_unordered is explored over all completion orders of <= 4 per-file tasks x lazy|eager "
+        "(deviation bound 1); the saved .npy must equal the reference covering grid cast to dtype bit for bit and be the same for every schedule.",
+   note="Entry point run in-process with cwd = scratch directory; pool model of kv/vpool.py.",
+   tech="stateless schedule exploration (controlled scheduler) of the implementation against a reference model"),
+ "C19": dict(cat="model_checking", design="4/C19",
+   text="pck[fsel](x,y,z) is evaluated at EVERY cell centre that is not covered by a finer level and lies one cell inside its box, for "
+        "1..3 level 3D plotfiles x two origins x three cell shapes x {name, name list, slice}; points outside every face must be refused.",
+   note="Payload affine in the cell index (distinct per level and field) so the tool's spline evaluation is exact at cell centres; tolerance 1e-6 against separations >= 1.",
+   tech=T),
 }
 
 NOT_YET = {}
